@@ -30,7 +30,7 @@ RULE = ("extension calls on load_example_model('pheno') and models derived from 
         "add_iiv (5 forms x 2 operations x 5 parameters), add_iov (3 occasion columns x parameter sets x 3 "
         "distributions), transform_etas_boxcox/tdist/john_draper, set_additive/proportional/combined_error_model "
         "(x data_trans, zero_protection), set_power_on_ruv, set_weighted/dtbs/time_varying_error_model, "
-        "set_iiv_on_ruv, add_allometry, set_transit_compartments histories, absorption setters. "
+        "set_iiv_on_ruv, set_combined_error_model after set_iiv_on_ruv / set_time_varying_error_model sequences (either order), add_allometry, set_transit_compartments histories, absorption setters. "
         "non-trivial = the call changed the model; distinct = distinct case JSON")
 TRUSTED = [
     "Lean 4.33 kernel; axioms propext, Quot.sound, Classical.choice only (audited per theorem each run)",
@@ -105,6 +105,8 @@ def gen_case(rng: random.Random):
     k = c["kind"]
     if k == "coveff":
         c["hist"] = gen_hist(rng, [c["param"]], avoid_cov=c["cov"])
+        if c.get("first"):      # ... nor the covariate of the earlier nested effect (same reuse of the names P<COV>)
+            c["hist"] = [h for h in c["hist"] if not (h[0] == "cov" and h[2] == c["first"][0])]
     elif k == "iiv":
         # (add_iiv substitutes the old right-hand side into the template; NONMEM code cannot hold a piecewise inside it)
         c["hist"] = gen_hist(rng, [c["param"]], exclude=("piecewise",))
@@ -138,10 +140,16 @@ def _gen_case(rng: random.Random):
     elif r < 0.63:
         c.update(kind="errordv", setter=rng.choice(["additive", "proportional", "combined"]), how=rng.choice(["dvid", "name"]),
                  zp=rng.random() < 0.5)
-    elif r < 0.72:
+    elif r < 0.71:
         c.update(kind="error", base=rng.choice(["pheno", "noerr", "add", "comb", "prop"]),
                  setter=rng.choice(["additive", "proportional", "combined", "dtbs"]),
                  log=rng.random() < 0.35, zp=rng.random() < 0.6, cutoff=1)
+    elif r < 0.765:
+        # a named setter on top of the residual-error modifiers of the same DV (sequences of extensions)
+        c.update(kind="errseq", base=rng.choice(["pheno", "prop", "pheno", "prop", "add", "comb"]),
+                 mods=rng.choice([["iiv_on_ruv"], ["time_varying"], ["iiv_on_ruv", "time_varying"], ["iiv_on_ruv", "time_varying"],
+                                  ["time_varying", "iiv_on_ruv"], ["time_varying", "iiv_on_ruv"]]),
+                 setter="combined", dv=rng.choice([None, None, "name", "dvid"]), cutoff=rng.choice([1, 2.5, 24, 0.5]))
     elif r < 0.90:
         base = rng.choice(RUV_BASES)
         eps = RUV_EPS[base]
@@ -192,6 +200,15 @@ def corpus_cases():
          "same_eta": True, "eta_names": False, "zp": False, "lower_limit": None, "cutoff": 1},
         {"kind": "ruvmod", "ids": None, "seed": 22, "base": "twodv", "fn": "time_varying", "dv": "dvid2", "list_of_eps": None,
          "same_eta": True, "eta_names": False, "zp": False, "lower_limit": 0.01, "cutoff": 2.5},
+        # set_combined_error_model after BOTH modifiers (either order): the additive epsilon carries exp(eta) after the cutoff too
+        {"kind": "errseq", "ids": None, "seed": 29, "base": "pheno", "mods": ["iiv_on_ruv", "time_varying"], "setter": "combined",
+         "dv": None, "cutoff": 1},
+        {"kind": "errseq", "ids": None, "seed": 30, "base": "prop", "mods": ["time_varying", "iiv_on_ruv"], "setter": "combined",
+         "dv": "name", "cutoff": 2.5},
+        {"kind": "errseq", "ids": None, "seed": 31, "base": "pheno", "mods": ["time_varying"], "setter": "combined", "dv": None, "cutoff": 24},
+        {"kind": "errseq", "ids": None, "seed": 32, "base": "add", "mods": ["iiv_on_ruv"], "setter": "combined", "dv": "dvid", "cutoff": 1},
+        # ... on a time-varying model whose epsilon is not proportional every old epsilon becomes epsilon_p WITHOUT the factor f
+        {"kind": "errseq", "ids": None, "seed": 33, "base": "add", "mods": ["time_varying"], "setter": "combined", "dv": None, "cutoff": 1},
         {"kind": "errordv", "ids": None, "seed": 23, "setter": "combined", "how": "dvid", "zp": True},
         {"kind": "errordv", "ids": None, "seed": 24, "setter": "additive", "how": "name", "zp": True},
         {"kind": "allometry", "ids": None, "seed": 11, "var": "WGT", "ref": 70, "params": None, "nocov": True},
@@ -228,6 +245,11 @@ def shrink(case):
         c = dict(case)
         c["hist"] = h[:i] + h[i + 1:]
         yield c
+    if case.get("kind") == "errseq" and len(case["mods"]) > 1:
+        for i in range(len(case["mods"])):
+            c = dict(case)
+            c["mods"] = case["mods"][:i] + case["mods"][i + 1:]
+            yield c
     if case.get("kind") == "transit" and len(case["ns"]) > 1:
         for i in range(len(case["ns"])):
             c = dict(case)
@@ -940,6 +962,125 @@ def run_error(case, drv, rng, k, mon, tags):
     return changed
 
 
+def run_errseq(case, drv, rng, k, mon, tags):
+    """A named error-model setter applied AFTER residual-error modifiers on the same DV (set_iiv_on_ruv and/or
+    set_time_varying_error_model, either order).  Documented: combined = f + f*eps_p + eps_a; IIV on RUV multiplies every
+    epsilon by exp(ETA_RV1); time-varying multiplies every epsilon by theta before the cutoff.  set_combined_error_model
+    keeps both modifiers, so Y must be f + (f*eps_p + eps_a) * [exp(eta)] * [theta if idv < cutoff], with the SAME factor on
+    both epsilons, at points on both sides of (and at) the cutoff, eta != 0, both epsilons != 0."""
+    base, mods, cutoff = case["base"], case["mods"], case["cutoff"]
+    m0 = error_base(base, case["ids"])
+    tags += [f"errseq:{'+'.join(mods)}", f"errseqbase:{base}", f"dv:{case['dv']}", f"cutoff:{cutoff}"]
+    m = m0
+    try:
+        for md in mods:
+            m = pm.set_iiv_on_ruv(m) if md == "iiv_on_ruv" else pm.set_time_varying_error_model(m, cutoff=cutoff)
+    except Exception as e:
+        mon.append({"cls": "errseq-modifier-internal-error", "what": f"{mods} on {base} raised {type(e).__name__}: " + str(e).split(chr(10))[0]})
+        return False
+    y_mod = y_of(m)
+    eps_mod = eps_in(m, y_mod)
+    f_old = y_mod.xreplace({S(e): sympy.Integer(0) for e in eps_mod})
+    new_etas = [n for n in m.random_variables.etas.names if n not in m0.random_variables.names]
+    tvs = [n for n in m.parameters.names if n not in m0.parameters.names and n not in m.random_variables.parameter_names]
+    has_iiv, has_tv = "iiv_on_ruv" in mods, "time_varying" in mods
+    if len(new_etas) != (1 if has_iiv else 0) or len(tvs) != (1 if has_tv else 0):
+        mon.append({"cls": "errseq-modifier-symbols", "what": f"{mods} on {base}: new etas {new_etas}, new thetas {tvs}"})
+        return False
+    dvarg = {None: None, "name": "Y", "dvid": 1}[case["dv"]]
+    kw = {} if dvarg is None else {"dv": dvarg}
+    # all epsilons of the old model proportional to the prediction?  (decides the witness class, from the model before the call)
+    y_base = y_of(m0)
+    f_base = y_base.xreplace({S(e): sympy.Integer(0) for e in eps_in(m0, y_base)})
+    prop_like = True
+    for _ in range(5):
+        ptb = U.gen_point(rng, [y_base], lo=2, hi=9)
+        fb = U.value_at(f_base, ptb)
+        if fb is not None and fb not in (0, 1):
+            break
+    for e in eps_in(m0, y_base):
+        p1 = dict(ptb)
+        for e_ in eps_in(m0, y_base):
+            p1[S(e_)] = sympy.Integer(1 if e_ == e else 0)
+        if fb is None or not U.same_value(U.value_at(y_base, p1) - fb, fb, TOL):
+            prop_like = False
+    tags.append(f"errseq-base-proportional:{prop_like}")
+    try:
+        m2 = pm.set_combined_error_model(m, **kw)
+    except Exception as e:
+        mon.append({"cls": "errseq-combined-internal-error", "what": f"set_combined_error_model({kw}) after {mods} on {base} raised "
+                    f"{type(e).__name__}: " + str(e).split(chr(10))[0]})
+        return False
+    changed = m2.statements != m.statements
+    y_new = y_of(m2)
+    eps_new = eps_in(m2, y_new)
+    fresh = [n for n in m2.random_variables.epsilons.names if n not in m.random_variables.epsilons.names]
+    # ---- K: the Y statement
+    if drv is not None and changed and len(fresh) == 2:
+        e1 = next((n for n in fresh if n.startswith("epsilon_p")), fresh[0])
+        e2 = next((n for n in fresh if n.startswith("epsilon_a")), fresh[1])
+        so, sn = _stmt_expr(m, "Y"), _stmt_expr(m2, "Y")
+        eta_present = "ETA_RV1" in m.random_variables.names
+        if isinstance(so, sympy.Piecewise):
+            if len(so.args) != 2:
+                k.append(f"set_combined_error_model after {mods}: old Y has {len(so.args)} piecewise branches")
+            else:
+                ans = drv.ask(["combinedtv", U.wire(so.args[0][0]), U.wire(so.args[1][0]), U.wire(so.args[0][1]),
+                               list(m.random_variables.epsilons.names), e1, e2, bool(eta_present), "ETA_RV1", "time_varying"])
+                cmp_expr(f"Y of set_combined_error_model({kw}) after {mods} on {base}", ans, sn, rng, k)
+            tags.append("k:combinedtv")
+        else:
+            f_st = so.xreplace({S(e): sympy.Integer(0) for e in m.random_variables.epsilons.names})
+            ans = drv.ask(["errory", "combined-iivruv" if eta_present else "combined", U.wire(f_st), "IPREDADJ", e1, e2])
+            cmp_expr(f"Y of set_combined_error_model({kw}) after {mods} on {base}", ans, sn, rng, k)
+            tags.append("k:errory")
+    # ---- Mon: documented composition
+    cut = U.rat(cutoff)
+    cls = "error-combined-after-modifiers-shape"
+    if has_tv and not prop_like:
+        cls = "error-combined-after-time-varying-eps-not-proportional"
+    if len(eps_new) != 2:
+        mon.append({"cls": cls, "what": f"set_combined_error_model({kw}) after {mods} on {base}: Y = {y_new} has epsilons {eps_new}"})
+        return changed
+    tvals = [cut - 1, cut - Rational(1, 7), cut, cut + 1, cut + Rational(5, 3)] if has_tv else [cut - 1, cut + 1]
+    bad = first_bad = None
+    nat = sorted(eps_new, key=lambda n: (not n.startswith("epsilon_p"), eps_new.index(n)))    # (proportional, additive) by name first
+    for (a, b) in ((nat[0], nat[1]), (nat[1], nat[0])):
+        bad = None
+        for i, tval in enumerate(tvals + [cut + 2]):
+            pt = U.gen_point(rng, [y_new, f_old], {"TIME": tval}, lo=1, hi=9)
+            for e in eps_new:
+                pt[S(e)] = Rational(rng.choice([-5, -3, -1, 1, 2, 4]), rng.randint(2, 7))
+            for n in new_etas:
+                # last point: the reference (eta = 0 after the cutoff), where Y must be the plain combined model
+                pt[S(n)] = sympy.Integer(0) if i == len(tvals) else Rational(rng.choice([-3, -2, -1, 1, 2, 3]), rng.randint(2, 4))
+            for n in tvs:
+                pt[S(n)] = Rational(rng.randint(2, 9), 7) + 1
+            f = U.value_at(f_old, pt)
+            if f is None or f == 0:
+                continue
+            sc = sympy.Integer(1)
+            if has_iiv:
+                sc = sc * sympy.exp(pt[S(new_etas[0])])
+            if has_tv and tval < cut:
+                sc = sc * pt[S(tvs[0])]
+            want = f + (f * pt[S(a)] + pt[S(b)]) * sc
+            got = U.value_at(y_new, pt)
+            if not U.same_value(got, want, TOL):
+                bad = (f"at TIME={tval} (cutoff {cut}), f={f}, {a}={pt[S(a)]}, {b}={pt[S(b)]}, "
+                       + ", ".join(f"{n}={pt[S(n)]}" for n in new_etas + tvs) + f": Y = {got}, documented f + (f*{a} + {b})*"
+                       + ("exp(eta)" if has_iiv else "1") + ("*theta" if has_tv and tval < cut else "") + f" = {want}")
+                break
+        first_bad = first_bad or bad
+        if bad is None:
+            break
+    if bad is not None:
+        bad = first_bad
+        mon.append({"cls": cls, "what": f"set_combined_error_model({kw}) after {mods} on base '{base}': Y = {y_new} is not the "
+                    f"combined function of f = {f_old} under the modifiers; {bad}"})
+    return changed
+
+
 def ruv_base(name, ids):
     if name in ("pheno", "add", "comb", "prop"):
         return error_base(name, ids)
@@ -1360,7 +1501,7 @@ def run_transit(case, drv, rng, k, mon, tags):
     return changed
 
 
-RUNNERS = {"errordv": run_errordv, "ruvmod": run_ruvmod, "coveff": run_coveff, "iiv": run_iiv, "iov": run_iov, "etatrans": run_etatrans, "error": run_error,
+RUNNERS = {"errseq": run_errseq, "errordv": run_errordv, "ruvmod": run_ruvmod, "coveff": run_coveff, "iiv": run_iiv, "iov": run_iov, "etatrans": run_etatrans, "error": run_error,
            "allometry": run_allometry, "transit": run_transit}
 
 
